@@ -26,7 +26,7 @@ var errReadFail = errors.New("verif: read failed")
 type c01World struct {
 	// ground truth, written by harness threads while they hold the baton
 	answered   map[string]string // method tag -> "ok" | "err"
-	readEnded  string           // "", "eof", "err"
+	readEnded  string            // "", "eof", "err"
 	writeFault map[string]string
 	brokenW    bool
 	closeCalld bool
